@@ -294,6 +294,71 @@ def run_batch(arg):
     return F, st
 
 
+# ------------------------------------------------------------------ in-vitro arm: formats no config line can carry
+
+def gen_vitro(rng, cid):
+    env = {b"V1": rand_bytes(rng, b"ABCDEFG hij", rng.choice([0, 1, 5, 40, 200, 1000])), b"V2": rand_bytes(rng, b"mnopq", rng.choice([1, 3, 30]))}
+    path = b"/bin/" + rand_bytes(rng, b"pqrs", rng.randrange(1, 12))
+    argv = rng.choice([None, [], [b"a0"], [b"prog", b"arg one", b"", b"x:y"]])
+    pieces = []
+    for _ in range(rng.choice([1, 2, 5, 20, 60])):
+        k = rng.random()
+        n = rng.choice([0, 1, 50, 99, 100, 101, 150, 500, 1000, 1022, 1023, 1024])
+        if k < 0.3:
+            pieces.append(rand_bytes(rng, LIT_ALPHA + b'";\n\t', rng.choice([0, 1, 30, 300, 2000])))
+        elif k < 0.5:
+            pieces.append(b"%{snoopy_literal:" + rand_bytes(rng, ARG_ALPHA + b'";', min(n, 1000)) + b"}")
+        elif k < 0.6:
+            pieces.append(b"%{env:" + rng.choice([b"V1", b"V2", b"NOPE", b"N" * min(n, 900)]) + b"}")
+        elif k < 0.7:
+            pieces.append(rng.choice([b"%{cmdline}", b"%{filename}", b"%{noop}", b"%{failure}"]))
+        elif k < 0.85:
+            pieces.append(b"%{" + b"n" * min(n, 1000) + rng.choice([b"", b":" + b"a" * rng.choice([0, 10, 500])]) + b"}")
+        else:
+            pieces.append(rng.choice([b"%", b"{", b"}", b"%{", b"%{env:V1", b"%%{", b":"]))
+    fmt = b"".join(pieces).replace(b"\0", b"")
+    size = rng.choice([256, 257, 1024, 4096, 16384, 65536])
+    dsmax = rng.choice([255, 256, 1000, 2047, 65535])
+    return dict(id=cid, cls="V", fmt=fmt, env=env, path=path, argv=argv, size=size, dsmax=dsmax)
+
+
+def vitro_script(c, B, s):
+    s.fork(c["id"])
+    s.raw("envset " + Script.vec([k + b"=" + v for k, v in c["env"].items()]))
+    s.raw("vinit 0 %s %s %s" % (Script.elem(c["path"]), Script.vec(c["argv"]), Script.vec([b"E=1"])))
+    s.raw("vfmt %d %d %d %s" % (c["id"], c["size"], c["dsmax"], Script.elem(c["fmt"])))
+    s.raw("vcleanup 0")
+    s.endfork()
+
+
+def vitro_check(c, evs, B):
+    wit = dict(case={k: (v if not isinstance(v, (bytes, dict, list)) else repr(v)[:600]) for k, v in c.items()})
+    ch = [e for e in evs if e["ev"] == "CHILD"]
+    if ch and (ch[0]["signal"] or ch[0]["status"]):
+        rep = B.res.san_by_pid.get(ch[0]["pid"], "")
+        B.F.violation("C05:vitro:died:sig%d" % ch[0]["signal"], "expanding a %d-byte format into a %d-byte buffer killed the process (%s)" % (len(c["fmt"]), c["size"], rep[:200].replace("\n", " ")), wit)
+        return
+    v = [e for e in evs if e["ev"] == "V"]
+    if not v:
+        raise Harness("no vfmt result for case %d" % c["id"])
+    if len(v[0]["out"]) // 2 < v[0]["len"]:
+        B.count("vitro_result_too_long_to_log")
+        return
+    rec = bytes.fromhex(v[0]["out"])
+    B.count("vitro")
+    ctx = dict(env=c["env"], path=c["path"], argv=c["argv"])
+    bad = fm.check(rec, c["fmt"], ctx, c["dsmax"], c["size"] - 1)
+    if any(fm.fits(a, c["dsmax"], c["size"] - 1) for a in fm.expand(c["fmt"], ctx)):
+        B.count("vitro_exact_fit")
+    if bad:
+        longtag = any(len(t) >= 100 for t in tags_of(c["fmt"]))
+        verylong = any(len(t) >= 1000 for t in tags_of(c["fmt"]))
+        if verylong and bad[0].startswith("expansion"):
+            B.count("vitro_tag_over_1000_not_judged")       # tag/argument lengths above 1000 are outside the property's domain
+            return
+        B.F.violation("C05:vitro:%s%s" % (bad[0], ":tag>=100" if longtag else ""), "%s; %d-byte format, buffer %d, ds limit %d, got %s" % (bad[1], len(c["fmt"]), c["size"], c["dsmax"], short(rec)), wit)
+
+
 def tags_of(fmt):
     out = []
     pos = 0
@@ -320,6 +385,15 @@ def main():
     batches = [(bld, cases[i:i + bs], i // bs, root) for i in range(0, len(cases), bs)]
     results = pmap(run_batch, batches, 16)
     rmwork(root)
+    # in-vitro arm on the ASan build: formats, tags and arguments longer than a config line can carry
+    from vlib.batch import run_cases
+    from vlib.common import HBIN
+    abld = vbuild.build("asan")
+    exe = vbuild.build_vitro(abld, asan=True)
+    rngv = rng_for(PROP, "vitro" + tr)
+    vcases = [gen_vitro(rngv, i + 1) for i in range(1500 if tr == "quick" else 40000)]
+    Fv, totv = run_cases(PROP, abld, vcases, vitro_script, vitro_check, batch_size=60, asan=True, exe=exe, preload=[os.path.join(HBIN, "libvrec.so")])
+    results.append((Fv, totv))
     F = Findings(PROP)
     tot = {}
     for f, st in results:
